@@ -3,6 +3,7 @@ from hypothesis import strategies as st
 
 VALUES = ["a", "bc", "xyz", "q", "", "mn"]
 SLOT_NAMES = ["a", "b", "s1", "s2", "default", "x-y", "\u00e91"]  # incl. a name that needs escaping in is_filled and a non-ASCII one
+PROVIDE_KEYS = ["pk1"] * 12 + ["pk2"] * 5 + ["class"] * 3  # the last one is a Python keyword (a key is any identifier-like string)
 DATA_KEYS = ["k1", "context"]  # the second name is also a parameter of every tag's own render(self, context, ...)
 ELEM_TAGS = ["div", "span", "p", "section"]
 
@@ -196,7 +197,7 @@ class Builder:
                 n["c"] = self.nodes(scope, depth + 1, comp_index, 0, where)
             return n
         if kind == "provide":
-            key = "pk1" if self.chance(65) else "pk2"
+            key = self.pick(PROVIDE_KEYS)
             kwargs = {"f1": self.expr(scope)}
             if self.chance(40):
                 kwargs["context"] = self.expr(scope)  # a field named like a parameter of the tag's own render(self, context, ...)
@@ -393,7 +394,7 @@ class Builder:
         if self.cfg["inject"] and self.chance(int(self.cfg.get("inject_pct", 60))):
             for _ in range(self.integer(1, 2)):
                 dflt = self.pick([None, "dfl", "dfl", ""])  # incl. a falsy default
-                spec["data"].append([self.name("j"), ["inject", "pk1" if self.chance(65) else "pk2", self.pick(["f1", "f1", "context"]), dflt]])
+                spec["data"].append([self.name("j"), ["inject", self.pick(PROVIDE_KEYS), self.pick(["f1", "f1", "context"]), dflt]])
         if self.cfg["idecho"]:
             spec["data"].append([self.fresh("id"), ["id"]])
         if self.cfg["hooks"]:
